@@ -79,7 +79,8 @@ def c_ent_forms(ctx, args):
         rr = _r.Random(len(A) * 1009 + sum(A) + n)
         perms = [rr.sample(A, len(A)) for _ in range(3)]          # an index list names a SET of qubits: any order, as list / tuple / integer array
         vals = [int(s.entropy(A)), int(s.entropy(tuple(A))), int(s.entropy(np.array(mask, dtype=np.bool_))), int(s.entropy(list(reversed(A))))] + \
-               [int(s.entropy(list(perms[0]))), int(s.entropy(tuple(perms[1]))), int(s.entropy(np.array(perms[2])))]
+               [int(s.entropy(list(perms[0]))), int(s.entropy(tuple(perms[1]))), int(s.entropy(np.array(perms[2])))] + \
+               [int(s.entropy([q - n if (q + len(A)) % 2 else q for q in A])), int(s.entropy(np.array([q - n for q in A])))]        # negative indices count from the end (numpy semantics)
         if len(set(vals)) != 1:
             return {'kind': 'oracle', 'where': 'np:entropy input forms disagree', 'observed': vals, 'expected': 'equal'}
     # the caller's own boolean mask, handed to a pure state first and to states of other ranks afterwards: never written to, and still naming the same region
